@@ -10,7 +10,7 @@ from typing import Any, Dict, List, Optional, Tuple
 
 from ..asm import (Block, Buf, DofRow, FieldTag, FlatBuf, IndexStack, NT, Run)
 from ..interp import Arr, SymInt
-from ..model import AnalysisError, Model, src, walk_no_nested
+from ..model import staged, AnalysisError, Model, src, walk_no_nested
 from ..poly import Poly
 
 PID = "C01"
@@ -496,37 +496,168 @@ def _normalize_rule(model, rep):
 
 
 def _consumers(model, rep):
+    """COO consumers by symbolic run: which index row is the matrix row,
+    which the column, and that every entry is used once"""
+    from ..interp import Interp, Obj, PyFunc, Raised, Unsupported
     R2 = "C01-R2"
     mod = "skfem.assembly.form.coo_data"
-    fn = model.func(mod, "COOData._assemble_scipy_csr")
-    calls = [n for n in ast.walk(fn.node) if isinstance(n, ast.Call)
-             and src(n.func) == "coo_matrix"]
-    ok = (len(calls) == 1 and calls[0].args
-          and src(calls[0].args[0]).replace(" ", "")
-          == "(data,(indices[0],indices[1]))"
-          and any(k.arg == "shape" and src(k.value) == "shape"
-                  for k in calls[0].keywords))
+    ccls = model.cls(mod, "COOData")
+
+    class Term(tuple):
+        skv_isarray = True
+
+        def skv_binop(self, op, other, reflected):
+            if isinstance(op, ast.Mult):
+                return Term(("mul",) + tuple(sorted(
+                    [self, other], key=repr)))
+            if isinstance(op, ast.Add):
+                return Term(("add",) + tuple(sorted(
+                    [self, other], key=repr)))
+            raise Unsupported("arithmetic")
+
+        def skv_getitem(self, ix):
+            return Term(("at", self, ix))
+
+        def skv_getattr(self, name):
+            if name == "shape":
+                return (Poly.sym("nidx"), Poly.sym("nnz"))
+            raise Unsupported("term." + name)
+
+    class Idx:
+        skv_isarray = True
+
+        def skv_getitem(self, ix):
+            if isinstance(ix, int):
+                return Term(("indexrow", ix))
+            if isinstance(ix, tuple) and len(ix) == 2 and \
+                    ix[0] == slice(None):
+                return Term(("indexcol", ix[1]))
+            raise Unsupported("indices index")
+
+        def skv_getattr(self, name):
+            if name == "shape":
+                return (2, 3)
+            raise Unsupported("indices." + name)
+    log = []
+
+    class Mat:
+        def __init__(self, what):
+            self.what = what
+
+        def skv_getattr(self, name):
+            if name in ("eliminate_zeros", "sum_duplicates"):
+                return PyFunc(lambda a, k, n: None)
+            if name in ("tocsr", "tocsc", "tocoo"):
+                return PyFunc(lambda a, k, n: self)
+            raise Unsupported("matrix." + name)
+
+    class Buf:
+        skv_isarray = True
+
+        def __init__(self):
+            self.stores = []
+
+        def skv_setitem(self, ix, v):
+            self.stores.append(("set", ix, v))
+
+        def skv_getitem(self, ix):
+            return Term(("buf", ix))
+
+    def hook(interp, name, args, kwargs, node):
+        if name.endswith("coo_matrix"):
+            log.append(("coo", args, kwargs))
+            return Mat(len(log) - 1)
+        if name in ("numpy.zeros_like", "numpy.zeros"):
+            b = Buf()
+            log.append(("zeros", b, args))
+            return b
+        if name == "numpy.add.at":
+            log.append(("add.at", args))
+            return None
+        return NotImplemented
+    DATA, X = Term(("data",)), Term(("x",))
+    # ---- csr
+    fn = ccls.methods["_assemble_scipy_csr"]
+    log.clear()
+    try:
+        r = Interp(model, call_hook=hook).call(
+            fn, [Idx(), DATA, ("R", "C"), None], {})
+    except (Unsupported, Raised) as e:
+        raise AnalysisError(f"COOData._assemble_scipy_csr: {e}")
+    coo = [x for x in log if x[0] == "coo"]
+    ok = False
+    if len(coo) == 1 and coo[0][1]:
+        a = coo[0][1][0]
+        shp = coo[0][2].get("shape", coo[0][1][1] if len(coo[0][1]) > 1
+                            else None)
+        ok = (isinstance(a, tuple) and len(a) == 2 and a[0] == DATA
+              and isinstance(a[1], tuple) and len(a[1]) == 2
+              and a[1][0] == Term(("indexrow", 0))
+              and a[1][1] == Term(("indexrow", 1))
+              and shp == ("R", "C") and isinstance(r, Mat)
+              and r.what == 0)
     _v(rep, R2, ok, "COOData._assemble_scipy_csr:convention",
        "coo_matrix((data, (indices[0], indices[1])), shape): index row 0 = "
        "matrix row", fn.path, "COOData._assemble_scipy_csr",
-       "the COO matrix is not built from (data, (indices[0], indices[1])) "
-       "with the producer's shape", fn.lineno)
-    fn = model.func(mod, "COOData.dot")
-    s = " ".join(src(n) for n in fn.node.body)
-    ok = "self.data * x[self.indices[1]]" in s and \
-        "np.add.at(z, self.indices[0], y)" in s
+       "the sparse matrix is not built from (data, (indices[0], "
+       "indices[1])) with the producer's shape (rows and columns "
+       "exchanged, or another array used)", fn.lineno)
+    # ---- dot
+    fn = ccls.methods["dot"]
+    log.clear()
+    obj = Obj(ccls, {"data": DATA, "indices": Idx(), "shape": ("R", "C")})
+    try:
+        r = Interp(model, call_hook=hook).call(fn, [X], {}, self_obj=obj)
+    except (Unsupported, Raised) as e:
+        raise AnalysisError(f"COOData.dot: {e}")
+    adds = [x for x in log if x[0] == "add.at"]
+    want_y = Term(("mul",) + tuple(sorted(
+        [DATA, Term(("at", X, Term(("indexrow", 1))))], key=repr)))
+    ok = (len(adds) == 1 and len(adds[0][1]) == 3
+          and isinstance(adds[0][1][0], Buf) and r is adds[0][1][0]
+          and adds[0][1][1] == Term(("indexrow", 0))
+          and adds[0][1][2] == want_y)
     _v(rep, R2, ok, "COOData.dot:convention",
-       "y = data * x[indices[1]] scattered at indices[0]", fn.path,
-       "COOData.dot", "matrix-vector product does not gather at the column "
-       "index and scatter at the row index", fn.lineno)
-    fn = model.func(mod, "COOData.toarray")
-    s = " ".join(src(n) for n in ast.walk(fn.node)
-                 if isinstance(n, ast.AugAssign))
-    ok = s == "out[tuple(self.indices[:, itr])] += self.data[itr]"
+       "y = data * x[indices[1]] accumulated at indices[0] of a zero "
+       "vector", fn.path, "COOData.dot",
+       "the matrix-vector product does not gather x at the column index "
+       "and accumulate at the row index", fn.lineno)
+    # ---- dense N-tensor
+    fn = ccls.methods["toarray"]
+    log.clear()
+    obj = Obj(ccls, {"data": DATA, "indices": Idx(),
+                     "shape": ("A", "B", "C")})
+
+    class AccBuf(Buf):
+        def skv_getitem(self, ix):
+            return Term(("old", ix))
+
+    def hook3(interp, name, args, kwargs, node):
+        if name == "numpy.zeros":
+            b = AccBuf()
+            log.append(("zeros", b, args))
+            return b
+        return hook(interp, name, args, kwargs, node)
+
+    class Acc(Term):
+        pass
+    try:
+        it = Interp(model, call_hook=hook3)
+        r = it.call(fn, [], {}, self_obj=obj)
+    except (Unsupported, Raised) as e:
+        raise AnalysisError(f"COOData.toarray: {e}")
+    ok = isinstance(r, AccBuf) and len(r.stores) == 3
+    if ok:
+        for k, (_, ix, v) in enumerate(r.stores):
+            # tuple(indices[:, k]) unpacks the column into one index per
+            # axis: the stub's column term becomes a plain tuple
+            want_v = Term(("add",) + tuple(sorted(
+                [Term(("old", ix)), Term(("at", DATA, k))], key=repr)))
+            ok = ok and tuple(ix) == ("indexcol", k) and v == want_v
     _v(rep, R2, ok, "COOData.toarray:convention",
-       "dense N-tensor accumulates data[k] at indices[:, k]", fn.path,
-       "COOData.toarray", "dense conversion does not accumulate data[k] at "
-       "indices[:, k]", fn.lineno)
+       "dense N-tensor accumulates data[k] at indices[:, k] for every k",
+       fn.path, "COOData.toarray", "the dense conversion does not "
+       "accumulate data[k] at indices[:, k] for every entry", fn.lineno)
 
 
 def _quadrature_guard(model, rep):
@@ -863,13 +994,13 @@ def run(model: Model, rep, tier: str) -> None:
         rep.ok("C01-R4", "producers:parameter-agreement",
                f"{len(vals)} producer runs merge defaults and keywords the "
                f"same way")
-    _interpolate_rule(model, rep)
-    _default_parameters(model, rep)
-    _normalize_rule(model, rep)
-    _consumers(model, rep)
     rep.rule("C01-R5", "data path keeps values intact: no cast to a fixed "
              "real type, no absolute threshold on assembled values")
-    _value_integrity(model, rep)
+    staged(lambda: _interpolate_rule(model, rep),
+           lambda: _default_parameters(model, rep),
+           lambda: _normalize_rule(model, rep),
+           lambda: _consumers(model, rep),
+           lambda: _value_integrity(model, rep))
     rep.require_min("C01-R1", 40)
     rep.require_min("C01-R2", 10)
     rep.require_min("C01-R3", 4)
@@ -997,7 +1128,17 @@ MUTANTS = [
       "            elif False:\n                raise ValueError(\"The given "
       "type '{}' for the list of extra \""), "C01-R4"),
 ]
+_CO = "skfem/assembly/form/coo_data.py"
 TWINS = [
+    ("dot multiplies in the other operand order",
+     (_CO, "        y = self.data * x[self.indices[1]]",
+      "        y = x[self.indices[1]] * self.data")),
+    ("csr conversion before eliminating zeros",
+     (_CO, "        K = coo_matrix((data, (indices[0], indices[1])), "
+      "shape=shape)\n        K.eliminate_zeros()\n        return K.tocsr()",
+      "        rows, cols = indices[0], indices[1]\n"
+      "        K = coo_matrix((data, (rows, cols)), shape=shape).tocsr()\n"
+      "        K.eliminate_zeros()\n        return K")),
     ("bilinear: slot variable renamed and computed from a base",
      (_B, "                ixs = slice(nt * (ubasis.Nbfun * i + j),\n"
       "                            nt * (ubasis.Nbfun * i + j + 1))",
